@@ -9,9 +9,11 @@ import time
 import traceback
 
 VERIF = os.path.dirname(os.path.dirname(os.path.abspath(__file__)))
-deps = os.path.join(VERIF, ".deps")
-if os.path.isdir(deps) and deps not in sys.path:
-    sys.path.append(deps)  # appended, never prepended
+for deps in (os.path.join(VERIF, ".deps"), "/verif/.deps"):
+    if os.path.isdir(deps):
+        if deps not in sys.path:
+            sys.path.append(deps)  # appended, never prepended
+        break
 
 
 def main():
